@@ -88,15 +88,14 @@ def oracle_scores(gi, n, X, cfg):
     if M.shape[0] == 0:
         sc = np.full((X.shape[0], 0), -np.inf)
     else:
-        with np.errstate(invalid='ignore'):      # rows with infinite entries: 0 * inf is NaN for derivations that do not use the entry; NaN scores are never judged
-            sc = X.astype(np.float64) @ M.T - pen * u[None, :]
+        sc = C01.score_all(M, u, X, pen)
     adm_sets = None
     amb = np.zeros(X.shape[0], dtype=bool)
     if pruning < T or use_beta:
         adm, amb = C01.admitted_mask(tags, pruning, beta, use_beta)
         if M.shape[0]:
             bad = ((~adm).astype(np.float64) @ Mt.T) > 0
-            sc = np.where(bad, -np.inf, sc)
+            sc = np.where(bad, np.nan, sc)          # NaN = not a derivation over admitted tags; -inf = a derivation that uses an entry at minus infinity
         adm_sets = [[{t for t in range(T) if adm[c, i * T + t]} for i in range(n)] for c in range(X.shape[0])]
     return sc, amb, adm_sets
 
@@ -123,10 +122,12 @@ def explore(st, gi, n, X, cfg, path, judges):
     dtrees = None
     for c, res in enumerate(results):
         x = X[c].tolist()
-        finite = np.sort(sc[c][np.isfinite(sc[c])])[::-1] if sc.shape[1] else np.zeros(0)
+        finite = np.sort(sc[c][~np.isnan(sc[c])])[::-1] if sc.shape[1] else np.zeros(0)      # scores of all derivations (minus infinity included), best first
         st.observe(path, gi, n, c, res if res == FAILED else [(r[0], r[1]) for r in res])
         if res == FAILED:
             st.count('failed')
+            if n == 1 and len(finite) and finite[0] == -np.inf:
+                continue      # a one-word tree scoring minus infinity cannot be told from the failure placeholder
             if 'beam' in judges and not amb[c] and len(finite):
                 st.violation(f'beam/false_failure/{gkey(g)}', f'failed although a derivation over admitted tags exists (score {finite[0]})', x=x, **base)
             if 'nbest' in judges and not amb[c] and len(finite):
